@@ -316,7 +316,13 @@ loops is regenerated from the Go sources on every run (`Grol.Generated.LoopFacts
 harness/cmd/harness/extract_loops.go); the classification below is by hand, and
 `C09.loops_classified` breaks when a loop is added, removed, moved to another function or changes
 its header.  How long one iteration takes (Go scheduler, GC, cache misses) is not a theorem: the
-`bounded` suite measures wall-clock time after the deadline on the real interpreter. -/
+`bounded` suite measures wall-clock time after the deadline on the real interpreter.
+
+CAVEAT (recorded finding `shared-structure-exponential-traversal`): "bounded by an existing container"
+bounds ONE loop by the container's length; the loops of Cmp / Inspect / Hashable / JSON recurse into
+the elements, and because values share structure (`a=[a,a]` n times) the unfolded size of a value
+is not bounded by the memory it occupies.  Those traversals are exponential in the program length and
+never poll the context: a genuine hang, exhibited by the suite's `dag-eq` / `dag-print` families. -/
 namespace Grol.Generated.LoopFacts
 
 inductive LoopClass
